@@ -252,21 +252,19 @@ BODYSETS = {
     "internal": [
     ],
     "adapters": [
-        ("mem_%s" % n, MA, fnre(n, a)) for n, a in [
-            ("load_policy", True), ("load_filtered_policy", True), ("save_policy", True), ("clear_policy", True),
-            ("add_policy", True), ("add_policies", True), ("remove_policies", True), ("remove_policy", True),
-            ("remove_filtered_policy", True), ("is_filtered", False)]
-    ] + [
+        # memory_adapter.rs entirely, the line handlers of file_adapter.rs / string_adapter.rs and StringAdapter's two loaders are
+        # TRANSLATED (tools/rs2coq_adapters.py, PinChecks/PcAdaptersGen.v), not hash-pinned; what stays pinned is the file I/O,
+        # the text rendering of save / clear and the incremental stubs
         ("file_%s" % n, FA, fnre(n, a)) for n, a in [
             ("load_policy_file", True), ("load_filtered_policy_file", True), ("save_policy_file", True),
             ("load_policy", True), ("load_filtered_policy", True), ("save_policy", True), ("clear_policy", True),
             ("add_policy", True), ("add_policies", True), ("remove_policy", True), ("remove_policies", True),
-            ("remove_filtered_policy", True), ("load_policy_line", False), ("load_filtered_policy_line", False)]
+            ("remove_filtered_policy", True)]
     ] + [
         ("str_%s" % n, SA, fnre(n, a)) for n, a in [
-            ("load_policy", True), ("load_filtered_policy", True), ("save_policy", True), ("clear_policy", True),
+            ("save_policy", True), ("clear_policy", True),
             ("add_policy", True), ("add_policies", True), ("remove_policy", True), ("remove_policies", True),
-            ("remove_filtered_policy", True), ("load_policy_line", False)]
+            ("remove_filtered_policy", True)]
     ],
     "util": [
         ("escape_assertion", "src/util.rs", fnre("escape_assertion")),
